@@ -292,3 +292,59 @@ package ddsketch
 //@   ensures clamped: result1 == nil ==> s.summaryStatistics.min <= result && result <= s.summaryStatistics.max
 //@   ensures stable: footprintStable(s)
 //@   modifies footprint(s)
+
+// ================================================================ binary decoding
+// like KInv, but the mapping may still be missing (it can come from the stream)
+//@ pred KInvM(s *DDSketch) := s != nil && s.positiveValueStore != nil && s.negativeValueStore != nil && (s.IndexMapping != nil ==> mapping.MapOK(s.IndexMapping)) && store.SInv(s.positiveValueStore) && store.SInv(s.negativeValueStore) && disjoint(s.positiveValueStore, s.negativeValueStore) && finite(s.zeroCount) && s.zeroCount >= 0.0
+//@ pred SuffixK(b *[]byte) := arr(*b) == old(arr(*b)) && off(*b) >= old(off(*b)) && off(*b) + len(*b) == old(off(*b) + len(*b))
+
+// decodeAndMergeWith: reads flagged blocks until the input is exhausted. A nil result means: every block was
+// complete (no decoding error of any kind was met, including those of the bin decoders), every flag was known,
+// the mapping read from the stream (if any) equals the sketch's, and the sketch has a mapping. On error the
+// content decoded so far stays (nothing is removed). The input domain (A-DOM) is that of prefixes of valid
+// encodings: decoded weights are finite and non-negative.
+//@ func DDSketch.decodeAndMergeWith
+//@   serves C08 C06 C07
+//@   requires KInvM(s)
+//@   ghost allOK bool := true
+//@   callback fallbackDecode params b, flag
+//@   callback fallbackDecode results err
+//@   callback fallbackDecode requires b != nil && flag.Type() == enc.flagTypeSketchFeatures && flag != enc.FlagZeroCountVarFloat
+//@   callback fallbackDecode ensures suffix: arr(*b) == old(arr(*b)) && off(*b) >= old(off(*b)) && off(*b) + len(*b) == old(off(*b) + len(*b))
+//@   callback fallbackDecode ensures unknown: !(flag == enc.FlagCount || flag == enc.FlagSum || flag == enc.FlagMin || flag == enc.FlagMax) ==> err != nil
+//@   callback fallbackDecode ensures count-payload: flag == enc.FlagCount && err == nil ==> len(*b) == old(len(*b)) - old(encoding.DLen(*b)) && old(encoding.DLen(*b)) > 0
+//@   callback fallbackDecode ensures count-eof: flag == enc.FlagCount && old(encoding.DLen(*b)) == 0 ==> err != nil
+//@   callback fallbackDecode ensures stat-payload: (flag == enc.FlagSum || flag == enc.FlagMin || flag == enc.FlagMax) && err == nil ==> len(*b) == old(len(*b)) - 8
+//@   callback fallbackDecode ensures stat-eof: (flag == enc.FlagSum || flag == enc.FlagMin || flag == enc.FlagMax) && old(len(*b)) < 8 ==> err != nil
+//@   callback fallbackDecode preserves footprint(s)
+//@   ensures complete: result == nil ==> allOK && s.IndexMapping != nil
+//@   ghost mismatch bool := false
+//@   ensures mapping: mismatch ==> result != nil
+//@   ensures KInvM(s) && KCount(s) >= old(KCount(s)) && s.positiveValueStore == old(s.positiveValueStore) && s.negativeValueStore == old(s.negativeValueStore)
+//@   ensures stable: footprintStable(s)
+//@   modifies everything()
+//@   after mapping.IndexMapping.Equals#1 ghost mismatch := mismatch || !$result
+//@   after store.Store.DecodeAndMergeWith#1 ghost allOK := allOK && $result == nil
+//@   after store.Store.DecodeAndMergeWith#2 ghost allOK := allOK && $result == nil
+//@   after encoding.DecodeVarfloat64#1 assume $result1 == nil ==> finite($result) && $result >= 0.0
+//@   loop 1 invariant allOK && !mismatch && b != nil && KInvM(s) && KCount(s) >= old(KCount(s)) && s.positiveValueStore == old(s.positiveValueStore) && s.negativeValueStore == old(s.negativeValueStore) && footprintStable(s)
+//@   loop 1 invariant old(s.IndexMapping) != nil ==> s.IndexMapping != nil
+//@   loop 1 decreases len(*b)
+//@   hint store.STotNonneg(s.positiveValueStore), store.STotNonneg(s.negativeValueStore)
+
+// The plain decoder skips the blocks of the exact summary statistics: exactly their documented payload
+// (flag.go: total count = varfloat64; sum, min, max = float64LE) and nothing else; other flags are unknown.
+//@ func DDSketch.DecodeAndMergeWith
+//@   serves C08 C07 C06
+//@   requires KInvM(s)
+//@   ensures complete: result == nil ==> s.IndexMapping != nil
+//@   ensures KInvM(s) && KCount(s) >= old(KCount(s)) && s.positiveValueStore == old(s.positiveValueStore) && s.negativeValueStore == old(s.negativeValueStore)
+//@   ensures stable: footprintStable(s)
+//@   modifies everything()
+//@   foreach 1 invariant true
+
+//@ func DecodeDDSketch
+//@   serves C08 C06
+//@   trusted the store provider is a caller-supplied function value (its contract: a fresh, empty store satisfying the store invariant); covered by the bounded stand-in decode-roundtrip
+//@   bounded decode-roundtrip
+//@   ensures result != nil
